@@ -531,8 +531,11 @@ async def run_connections(st, uni, nconns, schedule, sid_map, rate_limiter=None,
             elif kind == "unstall":
                 conns[step[1]].gate.set()
             elif kind == "idle":
-                release_deferred()
                 ok = await idle()
+                if deferred:
+                    # no fan-out was suspended in the meantime: the held-back messages arrive now
+                    release_deferred()
+                    ok = await idle()
                 rec.emit(a="Idle", ok=ok, reg=rec.registry(), qlen={c: 0 for c in conns})
             elif kind == "yield":
                 for _ in range(step[1]):
